@@ -16,6 +16,7 @@ import EsbuildModel.Impl.SmSections
 import EsbuildModel.Impl.Ctx
 import EsbuildModel.Impl.Lower
 import EsbuildModel.Impl.ChunkHash
+import EsbuildModel.Impl.Order
 
 open EsbuildModel
 
@@ -39,6 +40,7 @@ def dispatch (kernel : String) (args : List String) : String :=
   | "ctx" => Ctx.driver args
   | "lower" => Lower.driver args
   | "chunkhash" => ChunkHash.driver args
+  | "order" => Order.driver args
   | _ => "bad-kernel"
 
 partial def loop (hin hout : IO.FS.Stream) : IO Unit := do
